@@ -90,6 +90,9 @@ def events():
                                      "text": "int a[int[0,1]][int[0,1]][int[0,1]]["}),
         ("xta_old_array_first", {"kind": "xta", "newxta": False, "buf": "int b[3]; process P { state s; init s; }\nsystem P;\n"}),
         ("params_array_first", {"kind": "block", "builder": "doc", "nopreamble": True, "part": P["S_PARAMETERS"], "text": "int p[3], int &q[2][2]"}),
+        # literals that make the C library report a range error while being converted (process-wide errno is state too)
+        ("decl_double_out_of_range", {"kind": "block", "builder": "doc", "part": P["S_DECLARATION"], "text": "double d = 1e-400; double e = 1e999; int k = 3;"}),
+        ("expr_integer_20_digits", {"kind": "block", "builder": "expr", "part": P["S_EXPRESSION"], "text": "1 + 99999999999999999999"}),
         ("xta_unknown_source", {"kind": "xta", "buf": "process P() { state A, B; init A; trans A -> B { }, -> A { guard 1 ( ; }; }\nsystem P;\n"}),
     ]
     return ev
